@@ -34,17 +34,59 @@ from relational_common import *  # noqa
 PID = 'C09'
 
 
+# ---------------------------------------------------------------- key VECTORS that carry a column's name
+# "keys given by vector": the vector IS the key, whatever its name.  Here the vector handed in as the key
+# has the NAME of a column of its table but OTHER values (a derived vector that kept the name, e.g.
+# t.id.fillna(0), or a vector built by hand): rows must be paired on the vector's values, not on the stored
+# column of that name (class 'key-vector-named-like-a-column').
+def namedvec_cases(tier):
+    pool = [0, 1, 2] if tier == 'quick' else [0, 1, 2, 3]
+    top = 3 if tier == 'quick' else 4
+    for nl in range(1, top + 1):
+        for nr in range(1, top + 1):
+            for lk in itertools.product(pool, repeat=nl):
+                for rk in itertools.product(pool, repeat=nr):
+                    if tier == 'quick' and (sum(lk) + 2 * sum(rk) + nl) % 3:
+                        continue
+                    for side in ('L', 'R', 'LR'):
+                        yield {'op': 'namedvec', 'lk': list(lk), 'rk': list(rk), 'side': side, 'shift': 1 + (sum(lk) + nr) % 2}
+
+
+def eval_namedvec(case):
+    lk, rk, side, sh = case['lk'], case['rk'], case['side'], case['shift']
+    stored_l = [(k + sh) % 4 for k in lk]          # what the column of that name holds (decoy)
+    stored_r = [(k + sh + 1) % 4 for k in rk]
+    L = Table({'id': stored_l if side in ('L', 'LR') else lk, 'lp': [f'l{i}' for i in range(len(lk))]})
+    R = Table({'id2': stored_r if side in ('R', 'LR') else rk, 'rp': [f'r{i}' for i in range(len(rk))]})
+    lon = Vector(lk, name='id') if side in ('L', 'LR') else L.id
+    ron = Vector(rk, name='id2') if side in ('R', 'LR') else R.id2
+    descr = f"inner_join of Table(id={L.id._underlying!r}) and Table(id2={R.id2._underlying!r}) on vectors {lon._underlying!r} (named 'id') / {ron._underlying!r} (named 'id2')"
+    want = [(L.id[i], f'l{i}', R.id2[j], f'r{j}') for i in range(len(lk)) for j in range(len(rk)) if lk[i] == rk[j]]
+    try:
+        res = L.inner_join(R, lon, ron, expect='many_to_many')
+    except Exception as e:
+        return [Fail(f'{PID}:inner_join:key-vector-named-like-a-column:raises:{type(e).__name__}', f'{descr}: raised {e!r}', want, repr(e))]
+    cols = res.cols() if len(res.cols()) else []
+    got = list(zip(*[list(c) for c in cols])) if cols else []
+    if got != want:
+        return [Fail(f'{PID}:inner_join:key-vector-named-like-a-column:row-values', f'{descr}: rows {got!r}, the definition on the given vectors gives {want!r}', want, got)]
+    return []
+
+
 def cases(tier, seed):
     for case in itertools.chain(join_cases(tier, heavy=False), twin_join_cases(tier, heavy=False),
                                 adv_text_join_cases(tier, heavy=False), large_join_cases(tier, heavy=False)):
         case['op'] = 'inner_join'
         yield case
     yield from rejoin_cases(tier, ['inner_join'])
+    yield from namedvec_cases(tier)
 
 
 def evaluate(case):
     if case['op'] == 'rejoin':
         return eval_rejoin(PID, case)
+    if case['op'] == 'namedvec':
+        return eval_namedvec(case)
     fails = []
     op = 'inner_join'
     descr = big_join_descr(case, op)
@@ -70,6 +112,8 @@ def evaluate(case):
 def nontrivial(case):
     if case['op'] == 'rejoin':
         return rejoin_signature(case)
+    if case['op'] == 'namedvec':
+        return ('namedvec', len(case['lk']), len(case['rk']), case['side'], len(set(case['lk']) & set(case['rk'])) > 0)
     sig = join_signature(case)
     if sig is not None and case.get('block', '').startswith(('advtext', 'large-')):
         sig += (case['block'], case.get('layout'), case.get('matched'), case.get('order'))
